@@ -3,6 +3,8 @@
 //!
 //! First op of a case: `raw` | `rawinit v t` | `asset v t` | `instr t`; then `pt v t` (raw, asset),
 //! `pos d t` (instr: realised PnL `d` of a position exited at `t`), `gen` (generate on a clone),
+//! optional 4th token: `asset v t f` / `pt v t f` (asset only) = free balance `f` != total;
+//! `pos d t te` = time_enter `te` != time_exit,
 //! `gen!` (generate on the tear sheet itself). Times are milliseconds since the Unix epoch.
 use barter::{
     Timed,
@@ -104,7 +106,11 @@ enum Driven {
 /// that the *returns* data set of `PnLReturns` (C16/C17 territory, not observed here) stays
 /// numerically trivial: with notional 1 some variances make `Decimal::sqrt` panic inside
 /// `Dispersion::update` ("geo mean circuit breaker") before the drawdown code is reached.
-fn position(pnl: Decimal, t: DateTime<Utc>) -> PositionExited<AssetIndex, InstrumentIndex> {
+fn position(
+    pnl: Decimal,
+    t: DateTime<Utc>,
+    t_enter: DateTime<Utc>,
+) -> PositionExited<AssetIndex, InstrumentIndex> {
     PositionExited {
         instrument: InstrumentIndex(0),
         side: Side::Buy,
@@ -113,7 +119,7 @@ fn position(pnl: Decimal, t: DateTime<Utc>) -> PositionExited<AssetIndex, Instru
         pnl_realised: pnl,
         fees_enter: AssetFees::new(AssetIndex(0), Decimal::ZERO),
         fees_exit: AssetFees::new(AssetIndex(0), Decimal::ZERO),
-        time_enter: t,
+        time_enter: t_enter,
         time_exit: t,
         trades: vec![],
     }
@@ -147,10 +153,12 @@ fn run() {
                     obs_sheet(&g, &mean, &max, lines);
                     driven = Driven::Raw(g, mean, max);
                 }
-                (Driven::Unset, ["asset", v, t]) => {
+                (Driven::Unset, ["asset", v, t]) | (Driven::Unset, ["asset", v, t, _]) => {
                     let total = parse_dec(v);
+                    // optional 4th token: free balance (default: free = total)
+                    let free = toks.get(3).map(|f| parse_dec(f)).unwrap_or(total);
                     let ts = TearSheetAssetGenerator::init(&Timed::new(
-                        Balance::new(total, total),
+                        Balance::new(total, free),
                         time(t.parse().unwrap()),
                     ));
                     obs_sheet(&ts.drawdown, &ts.drawdown_mean, &ts.drawdown_max, lines);
@@ -176,18 +184,22 @@ fn run() {
                     }
                     obs_sheet(g, mean, max, lines);
                 }
-                (Driven::Asset(ts), ["pt", v, t]) => {
+                (Driven::Asset(ts), ["pt", v, t]) | (Driven::Asset(ts), ["pt", v, t, _]) => {
                     let total = parse_dec(v);
+                    let free = toks.get(3).map(|f| parse_dec(f)).unwrap_or(total);
                     let balance = AssetBalance {
                         asset: AssetIndex(0),
-                        balance: Balance::new(total, total),
+                        balance: Balance::new(total, free),
                         time_exchange: time(t.parse().unwrap()),
                     };
                     ts.update_from_balance(Snapshot(&balance));
                     obs_sheet(&ts.drawdown, &ts.drawdown_mean, &ts.drawdown_max, lines);
                 }
-                (Driven::Instr(ts), ["pos", d, t]) => {
-                    ts.update_from_position(&position(parse_dec(d), time(t.parse().unwrap())));
+                (Driven::Instr(ts), ["pos", d, t]) | (Driven::Instr(ts), ["pos", d, t, _]) => {
+                    // optional 4th token: time_enter (default: time_enter = time_exit)
+                    let t_exit = time(t.parse().unwrap());
+                    let t_enter = toks.get(3).map(|e| time(e.parse().unwrap())).unwrap_or(t_exit);
+                    ts.update_from_position(&position(parse_dec(d), t_exit, t_enter));
                     obs_sheet(
                         &ts.pnl_drawdown,
                         &ts.pnl_drawdown_mean,
@@ -411,7 +423,135 @@ fn generate(seed: u64, n_cases: usize, tier: &str) {
         }
         emit_case(&mut out, &format!("r{id}"), mode, &vals, &ts, &gens);
     }
+    domain_family(&mut out, seed, n_cases, tier);
     out.flush();
+}
+
+/// Input classes the main generator never produced (input-domain audit), as a separately seeded
+/// family `d<k>` after the random cases (which stay as they were):
+///  0 long curves (150-400 points, thorough up to 1 500);
+///  1 asset balances whose `free` differs from `total` (the drawdown is of `total`);
+///  2 positions whose `time_enter` differs from `time_exit` (the PnL curve is timed by the exit);
+///  3 extreme-but-exact magnitudes (unit 1e-8 .. 1e-6 or 1e9 .. 1e10; a tiny trough under a huge peak);
+///  4 `gen` / `gen!` on an empty history (before any point), then a normal curve;
+///  5 timestamps before the epoch (negative) and realistic ones (1.7e12 ms), equal and decreasing.
+fn domain_family(out: &mut Out, seed: u64, n_cases: usize, tier: &str) {
+    let mut rng = Rng::new(seed ^ 0xD0A1_18D0_A118);
+    let extra = (n_cases / 10).max(if n_cases > 0 { 6 } else { 0 });
+    let long_max = if tier == "thorough" { 1500 } else { 400 };
+    for k in 0..extra {
+        let id = format!("d{}", k + 1);
+        let class = k % 6;
+        let len = match class {
+            0 if k < 6 => rng.range(150, long_max) as usize,
+            0 => rng.range(100, 200) as usize,
+            _ => rng.range(1, 25) as usize,
+        };
+        let levels = curve(&mut rng, len);
+        let mut ts = times(&mut rng, len);
+        let mut gens: Vec<u8> = (0..len).map(|_| if rng.chance(10) { 1 } else { 0 }).collect();
+        gens[len - 1] = 1;
+        let vals: Vec<String> = match class {
+            3 => {
+                let (mul, scale) = *rng.pick(&[(1i64, 8u32), (25, 8), (1, 6), (1_000_000_000, 0), (10_000_000_000, 0), (2_500_000_000, 0)]);
+                let mut v: Vec<String> = levels.iter().map(|l| dec_str(l * mul, scale)).collect();
+                // a tiny trough under a huge peak / exact zero
+                if scale == 0 && len > 2 {
+                    let i = rng.range(1, len as i64 - 1) as usize;
+                    v[i] = rng.pick(&["0.00000001", "0", "0.000001"]).to_string();
+                }
+                v
+            }
+            _ => {
+                let (mul, scale) = *rng.pick(&[(1i64, 0u32), (5, 1), (25, 2), (10, 0)]);
+                levels.iter().map(|l| dec_str(l * mul, scale)).collect()
+            }
+        };
+        if class == 5 {
+            let base = if rng.chance(50) { -(rng.range(1, 4) * 86_400_000) } else { 1_700_000_000_000 };
+            let back = rng.chance(50);
+            for (i, t) in ts.iter_mut().enumerate() {
+                // before the epoch the main generator's clamp at 0 is not applied: times may decrease
+                *t = if back && base < 0 { base - *t / 2 + (i as i64 % 2) } else { base + *t };
+            }
+        }
+        let mode = match class {
+            1 => "asset",
+            2 => "instr",
+            _ => *rng.pick(&["raw", "rawinit", "asset", "instr"]),
+        };
+        match class {
+            1 => {
+                // free != total: half, zero, above total, negative
+                out.case(&id);
+                let free = |rng: &mut Rng, v: &str| -> String {
+                    let t = parse_dec(v);
+                    match rng.below(4) {
+                        0 => (t / Decimal::TWO).normalize().to_string(),
+                        1 => "0".into(),
+                        2 => (t + Decimal::ONE).normalize().to_string(),
+                        _ => (-t).normalize().to_string(),
+                    }
+                };
+                let f0 = free(&mut rng, &vals[0]);
+                out.line(format!("asset {} {} {}", vals[0], ts[0], f0));
+                for i in 1..len {
+                    let f = free(&mut rng, &vals[i]);
+                    out.line(format!("pt {} {} {}", vals[i], ts[i], f));
+                    if gens[i] == 1 {
+                        out.line("gen");
+                    }
+                }
+                if len == 1 {
+                    out.line("gen");
+                }
+            }
+            2 => {
+                out.case(&id);
+                out.line(format!("instr {}", ts[0]));
+                let mut prev = Decimal::ZERO;
+                for i in 0..len {
+                    let v = parse_dec(&vals[i]);
+                    let te = ts[i] + *rng.pick(&[-86_400_000i64, -1000, -1, 1, 5000]);
+                    out.line(format!("pos {} {} {}", (v - prev).normalize(), ts[i], te));
+                    prev = v;
+                    if gens[i] == 1 {
+                        out.line("gen");
+                    }
+                }
+            }
+            4 => {
+                // generate before any point
+                out.case(&id);
+                match mode {
+                    "raw" => out.line("raw"),
+                    "rawinit" => out.line(format!("rawinit {} {}", vals[0], ts[0])),
+                    "asset" => out.line(format!("asset {} {}", vals[0], ts[0])),
+                    _ => out.line(format!("instr {}", ts[0])),
+                }
+                out.line("gen");
+                if (mode == "asset" || mode == "instr") && rng.chance(50) {
+                    out.line("gen!");
+                    out.line("gen");
+                }
+                let mut prev = Decimal::ZERO;
+                let start = if mode == "rawinit" || mode == "asset" { 1 } else { 0 };
+                for i in start..len {
+                    if mode == "instr" {
+                        let v = parse_dec(&vals[i]);
+                        out.line(format!("pos {} {}", (v - prev).normalize(), ts[i]));
+                        prev = v;
+                    } else {
+                        out.line(format!("pt {} {}", vals[i], ts[i]));
+                    }
+                    if gens[i] == 1 {
+                        out.line("gen");
+                    }
+                }
+            }
+            _ => emit_case(out, &id, mode, &vals, &ts, &gens),
+        }
+    }
 }
 
 fn main() {
